@@ -149,11 +149,11 @@ LATER = {
     "C01": ("Later rules: tolerances are consumed in their own roles (E6), the polyA/polyT twins are mirror images (E7), the matching presets form "
             "a chain of non-decreasing tolerances with the documented delta (E8), the tail search runs for every alignment (E9).", "E5-E9"),
     "C02": ("Later rules: counter cell type and strategy wiring (W4, W5), the __not_aligned number is the experiment's own (W6), and the site that "
-            "types a record ambiguous must agree with the weight's divisor (W7 - a genuine defect, recorded as a known finding), get_features returns distinct features (W8), per-chromosome statistics are added (W9).", "W4-W9"),
+            "types a record ambiguous must agree with the weight's divisor (W7 - a genuine defect, recorded as a known finding), get_features returns distinct features (W8), per-chromosome statistics are added (W9), the type dispatch of add_read_info over all assignment types (W10).", "W4-W10"),
     "C03": ("Later rules: strand-gated gene merging (G4), every reference transcript is registered once per chromosome (G5), the extended "
-            "annotation is built whenever the run options ask for it (G6), the print gate accepts exactly the well-formed exon lists, the registry of printed gene ids never shrinks (G7), an annotated gene is never the one merged away (G8), reserved ids of the annotation are always scanned (G9), reference exon lists are stored untransformed (G10).", "G4-G10"),
+            "annotation is built whenever the run options ask for it (G6), the print gate accepts exactly the well-formed exon lists, the registry of printed gene ids never shrinks (G7), an annotated gene is never the one merged away (G8), reserved ids of the annotation are always scanned (G9), reference exon lists are stored untransformed (G10), second-stage tasks cover the whole reference (G11).", "G4-G11"),
     "C04": ("Later rules: the known-chain lookup uses the chain the table is keyed by (N3), substituted intron chains keep an exon between "
-            "neighbouring introns (N4), the print gate cannot drop a model whose reads are listed (N5), the strand decision table (N6), no graph vertex comes from the annotation (N7), duplicate detection is position-independent (N8).", "N3-N8"),
+            "neighbouring introns (N4), the print gate cannot drop a model whose reads are listed (N5), the strand decision table (N6), no graph vertex comes from the annotation (N7), duplicate detection is position-independent (N8), splice sites are compared upper-cased (N9).", "N3-N9"),
     "C05": ("Later rules: storage reset, tiling proof of the region splitter and index-slice bounds (D5-D7), hash/eq contract, de-duplicating "
             "strategy (D8, D9), per-experiment statistics (D10), one container entry per record (D11).", "D5-D11"),
     "C06": ("Later rules: pickled hand-over between worker and parent (O4), append-mode files are truncated by their owner (O5), the compact and the full record agree field by field in both memory modes (O6), per-process object numbers are never ordered (O7).", "O4-O7"),
@@ -161,23 +161,23 @@ LATER = {
             "markers removed before a new run identity is published (R8), save/restore agreement of the collection stage (R9), no marker is opened around the work it vouches for (R10).", "R5-R10"),
     "C08": ("Later rules: pickle state of the compact records (M5), the multimapper flag is the secondary flag of the record's own alignment (M6), guard vocabulary of the statement that files a record under its read id (M7), one container entry per record (M8), resolve() returns its input only for <= 1 record or after suspending all (M9).", "M5-M9"),
     "C09": ("Later rules: rendering flags only render (P4), no stale loop variable (P5), split of the read-group table (P6), file provenance of a "
-            "read (P7), groups of a reused chromosome restored (P8), the file:FILE:READ_COL:GROUP_COL:DELIM parser agrees with docs/cmd.md field by field (P9), a fresh grouper per chromosome task (P10).", "P4-P10"),
+            "read (P7), groups of a reused chromosome restored (P8), the file:FILE:READ_COL:GROUP_COL:DELIM parser agrees with docs/cmd.md field by field (P9), a fresh grouper per chromosome task (P10), label-table keys and look-up keys agree (P11).", "P4-P11"),
     "C10": ("Later rules: experiment enumeration parsers (S2), groupers read their own experiment's labels only (S3), the returned experiment names are the looked-up ones (S4); "
             "cross-cutting U3 (ignored argument).", "S2-S4, U3"),
     "C11": ("Later rules: the -1 sentinel never enters coordinate arithmetic (X3), strand decision table (X4), offsets of the reported tail "
             "positions (X5 - a genuine 2-bp asymmetry, recorded as a known finding), twin constant tables (X6), no early exit on feature ends in start-sorted lists (X7).", "X3-X7"),
     "C13": ("Later rules: dump completeness, spanned windows, presence tests (F3-F5), row attributes aggregated over all isoforms (F6), every "
-            "profile comes from its constructor call (F7), profile assignments depend on run options only (F8), ExonCounter / IntronCounter twins (F9).", "F3-F9"),
+            "profile comes from its constructor call (F7), profile assignments depend on run options only (F8), ExonCounter / IntronCounter twins (F9, F10).", "F3-F10"),
     "C14": ("Later rules: one index space in match_genomic_features (B4), the read span after trimming (B5), containment guard for inserted "
             "introns (B6), ordered replacement pair in the short-read corrector (B7); cross-cutting U4 (options are defaulted, never overwritten) and U5 (preset fields wired to the options of the same name), the chain of process_events is handed on unchanged or sorted (B8).", "B4-B8, U4, U5"),
     "C15": ("Later rules: derivation order in GeneInfo.deserialize (Z4), state of the skipped stage rebuilt on --read_assignments (Z5), optional "
-            "segments are lossless (Z6), the reused save files are never deleted (Z7), no swallowed exception around a record write (Z8), compact record = full record (Z9).", "Z4-Z9"),
+            "segments are lossless (Z6), the reused save files are never deleted (Z7), no swallowed exception around a record write (Z8), compact record = full record (Z9), appended streams are truncated by their module (Z10).", "Z4-Z10"),
     "C16": ("Later rules: trimming as a slice-chain simulation with an all-exons guard decided in linear form (Q2), start of the walk (Q3), "
             "who-may-call for the legacy walkers (Q4), mirror pairs of the trimming helpers (Q5), block lists come from the walker or a slice of themselves (Q6).", "Q2-Q6"),
     "C17": ("Later rules: no process-wide id state (I5), the preload of reference exon ids is exhaustive (I6), both annotation scans always run (I7), per-call id caches are keyed by all they depend on (I8).", "I5-I8"),
     "C18": ("Later rules: owner attributes and window setters (K3, K4).", "K3-K4"),
     "C20": ("Later rules: creation of the shared directory tolerates a concurrent creator (A4), only artefacts produced by this run are "
-            "registered (A5), mtime comparisons are exact (A6), the validity test is given the run's own database path (A7), private names under the temporary directory (A8), no deletion of files found by listing the shared directory (A9).", "A4-A9"),
+            "registered (A5), mtime comparisons are exact (A6), the validity test is given the run's own database path (A7), private names under the temporary directory (A8), no deletion of files found by listing the shared directory (A9), registered alignments are indexed (A10).", "A4-A10"),
 }
 for _pid, (_txt, _rules) in LATER.items():
     if _pid in CLAIMS:
